@@ -205,4 +205,18 @@ CHECKS = {
         assumptions=["single fault per run (as the property states); leaks under an injected fault are not violations",
                      "allocations made by libc internally (stdio, iconv) are not wrapped"],
     ),
+    "C19": dict(
+        bins=["c19", "c19t"], replay_bin="c19", replay_route=[("c19t ", "c19t", ["--mode", "threads"])],
+        campaigns=lambda tier, seed: [dict(name="interleaved_calls", bin="c19", shards=16, timeout=3000),
+                                      dict(name="threads_tsan", bin="c19t", shards=8, shards_flexible=False, timeout=3000, args=["--mode", "threads"])], level="exploration",
+        rule=("rapidcheck cases of 2..8 connections (generated exchanges, multipart with/without file extraction, urlencoded + auth, gzip/deflate coded bodies, UTF-8 / best-fit / "
+              "malformed targets; each with its own chunking; 10 personalities, decoder switches, auto-destroy) driven from ONE shared htp_cfg_t: (a) on one thread with the calls "
+              "of all connections merged in a generated order (random / round-robin / mostly sequential), parsers created at their first call and destroyed as soon as they finish "
+              "while the others continue (ASan+UBSan build); (b) one thread per connection released by a barrier with generated start skews (ThreadSanitizer build, 8 processes). "
+              "Oracle: each connection's canonical dump + complete callback trace + per-call results == its solo run with a private configuration; byte snapshot of the shared "
+              "htp_cfg_t and of every hook list unchanged; process umask unchanged; no ThreadSanitizer report. Non-trivial = >= 3 connections whose calls alternate at least "
+              "2k times (a) / whose lifetimes overlap (b)"),
+        assumptions=["(b) samples thread schedules, it does not enumerate them; a race TSan's happens-before analysis cannot see (process-wide umask toggling around mkstemp) is only checked through the final umask value",
+                     "rapidcheck itself runs on the main thread only"],
+    ),
 }
